@@ -20,8 +20,12 @@ def treeFixed : Bool := Nsq.Gen.Life.removeGuard == guardFixed
 theorem remove_guard_known :
     Nsq.Gen.Life.removeGuard = guardUnfixed ∨ Nsq.Gen.Life.removeGuard = guardFixed := by decide
 
-/-- `Channel.Empty`: lock, reset both structures, the hook, every consumer's Empty, backend.Empty -/
-theorem empty_calls : Nsq.Gen.Life.emptyCalls = ["Lock", "initPQ", "verifPoint", "Empty", "Empty"] := by decide
+/-- `Channel.Empty`: lock, reset both structures, the hook, every consumer's counter adjustment
+(`client.Empty()`: zero it — or, with fixes/F13_empty_vs_inflight_accounting.patch, `Discarded(n)`:
+subtract exactly what the reset dropped, `Empty()` only for foreign consumers), backend.Empty -/
+theorem empty_calls :
+    Nsq.Gen.Life.emptyCalls = ["Lock", "initPQ", "verifPoint", "Empty", "Empty"] ∨
+    Nsq.Gen.Life.emptyCalls = ["Lock", "initPQ", "verifPoint", "Discarded", "Empty", "Empty"] := by decide
 
 /-- `Channel.exit`: once-only flag, notify, close consumers, then Empty + backend.Delete (delete)
 or flush + backend.Close (close) -/
